@@ -115,7 +115,7 @@ def run(ck):
             dist["header:" + t[4]] += 1
             for ty in t[5].split(","):
                 dist["type:" + ty] += 1
-            unmod = m.startswith("unmodelled")
+            unmod = m.startswith("unmodelled") or "import:unmodelled" in m
             if i.startswith(("create-failed", "load-failed", "harness-panic", "file:missing")):
                 ck.report("harness:" + i.split(":")[0], "harness could not set the case up: %s -> %s" % (q[:200], i[:200]), replay={"request": q, "impl": i}, found_input=False)
                 continue
